@@ -72,6 +72,10 @@ def cells(tier, seed):
             if sum(b0) == 3 or sum(b1) == 3 or (sum(b0) == 0 and sum(b1) == 0):
                 continue
             out.append({"kind": "batch", "pattern": [list(b0), list(b1)], "ctx": "default"})
+    # a batch of two models (batched kernel / mean / noise) that SHARE their training inputs and targets (n x d, n)
+    for bits in itertools.product([0, 1], repeat=3):
+        if sum(bits) < 3:
+            out.append({"kind": "kbatch", "pattern": list(bits), "ctx": "default"})
     for bits in itertools.product([0, 1], repeat=4):
         if sum(bits) == 4:
             continue
@@ -97,9 +101,9 @@ def settings_ctx(name):
 
 
 def build(kind, seed, X, y):
-    fam = {"single": "exact", "batch": "exact", "multitask": "multitask", "fixed": "fixednoise_learn", "matern": "matern_ard",
+    fam = {"single": "exact", "batch": "exact", "kbatch": "exact", "multitask": "multitask", "fixed": "fixednoise_learn", "matern": "matern_ard",
            "sgpr": "sgpr", "rff": "rff", "kiss": "kiss"}[kind]
-    mb = (2,) if kind == "batch" else ()
+    mb = (2,) if kind in ("batch", "kbatch") else ()
     m = models.ExactModel(X, y, fam, seed, batch_shape=mb)
     models.perturb_(m, seed, "c16" + kind)
     with torch.no_grad():
@@ -255,6 +259,10 @@ def run_cell(cell, seed):
         n, d, m = 3, 1, 2
         X, y0, Xs = util.rand(g, n, d), util.randn(g, n, 2), util.rand(g, m, d)
         nanmask = torch.tensor(cell["pattern"], dtype=torch.bool).view(n, 2)
+    elif kind == "kbatch":
+        n, d, m = 3, 1, 2
+        X, y0, Xs = util.rand(g, n, d), util.randn(g, n), util.rand(g, m, d)
+        nanmask = torch.tensor(cell["pattern"], dtype=torch.bool)
     else:
         n, d, m = 3, 1, 2
         X, y0, Xs = util.rand(g, 2, n, d), util.randn(g, 2, n), util.rand(g, 2, m, d)
@@ -262,7 +270,7 @@ def run_cell(cell, seed):
     y = y0.clone()
     y[nanmask] = float("nan")
     ops = 0
-    orders = ORDERS if kind != "batch" else [o for o in ORDERS if len(o) <= 2 and "train" not in o]
+    orders = ORDERS if kind not in ("batch", "kbatch") else [o for o in ORDERS if len(o) <= 2 and "train" not in o]
     clean = build(kind, seed, X, y0)
     for order in orders:
         model = build(kind, seed, X, y)
@@ -288,6 +296,8 @@ def run_cell(cell, seed):
                 obs_list = [obs, obs]
             elif kind == "batch":
                 obs_list = [~nanmask[0], ~nanmask[1]]
+            elif kind == "kbatch":
+                obs_list = [~nanmask, ~nanmask]
             else:
                 obs_list = [~nanmask.reshape(-1)]
             try:
@@ -305,17 +315,18 @@ def run_cell(cell, seed):
                 fails.append({"sub": "no-nan", "symptom": "NaN in the posterior under policy " + pol, "detail": "", "features": f2})
                 continue
             for b, obs in enumerate(obs_list):
-                if kind == "batch":
-                    sub = build("single", seed, X[b], y0[b])
+                if kind in ("batch", "kbatch"):
+                    Xb_, yb_, Xsb_ = (X[b], y0[b], Xs[b]) if kind == "batch" else (X, y0, Xs)
+                    sub = build("single", seed, Xb_, yb_)
                     models.copy_into_slice = None
                     # replica of batch element b: slice parameters
                     with torch.no_grad():
                         src = dict(model.named_parameters())
                         for k, p in sub.named_parameters():
                             p.data = src[k].data[b].reshape(p.shape).clone()
-                    wm, wc, K, Sn, mu = deletion_reference(sub, X[b], y0[b], Xs[b], obs, "single")
+                    wm, wc, K, Sn, mu = deletion_reference(sub, Xb_, yb_, Xsb_, obs, "single")
                     gm, gc = mean[b], cov[b]
-                    allm, allc, _, _, _ = deletion_reference(sub, X[b], y0[b], Xs[b], torch.ones_like(obs), "single")
+                    allm, allc, _, _, _ = deletion_reference(sub, Xb_, yb_, Xsb_, torch.ones_like(obs), "single")
                 elif kind in STRATEGY_KINDS:
                     # kernel-specific strategies: the statement taken literally - the SAME model class built on the data set with the NaN
                     # observations deleted (same hyperparameters / inducing points / random features / grid; what that model computes is
